@@ -481,6 +481,20 @@ func (m *Machine) makeSlice(fr *Frame, in *ssa.MakeSlice) Value {
 	lt := m.get(fr, in.Len).(*Term)
 	ct := m.get(fr, in.Cap).(*Term)
 	et := in.Type().Underlying().(*types.Slice).Elem()
+	if phys := m.cfgInt("symMake", 0); phys > 0 && !lt.IsConst() && (in.Cap == in.Len || ct == lt) {
+		// lazily sized allocation: symbolic length over a physical store of `phys` elements
+		l64 := sextTo64(lt, in.Len.Type())
+		if m.branchVC(SLt(l64, BVC(64, 0)), "makeslice negative len") {
+			m.raiseRuntime("makeslice: len out of range")
+		}
+		if m.branchVC(SLt(BVC(64, 1<<40), l64), "makeslice huge len") {
+			m.raiseRuntime("makeslice: len out of range")
+		}
+		m.ps.allocs = append(m.ps.allocs, l64)
+		sl := m.newSlice(et, phys, phys)
+		sl.slen = l64
+		return sl
+	}
 	ln := m.concretizeInt(sextTo64(lt, in.Len.Type()), "make len", m.cfgInt("maxMakeForks", 16))
 	var cp int64
 	if in.Cap == in.Len || ct == lt {
@@ -571,6 +585,29 @@ func (m *Machine) sliceOp(fr *Frame, in *ssa.Slice) Value {
 				m.raiseRuntime("slice bounds out of range on nil slice")
 			}
 			return (*SliceV)(nil)
+		}
+		if v.slen != nil && in.Max == nil {
+			if in.High == nil {
+				// s[lo:] keeps the symbolic length
+				if m.branchVC(Or(SLt(BVC(64, uint64(int64(lo))), BVC(64, 0)), SLt(v.slen, BVC(64, uint64(int64(lo))))), "slice bounds") {
+					m.raiseRuntime("slice bounds out of range (symbolic length)")
+				}
+				if lo > v.len {
+					m.unsupported("slice offset %d beyond physical store of lazily sized slice", lo)
+				}
+				return &SliceV{arr: v.arr, off: v.off + lo, len: v.len - lo, cap: v.cap - lo, slen: Sub(v.slen, BVC(64, uint64(int64(lo))))}
+			}
+			// s[lo:hi] with concrete hi: ordinary slice once hi <= len is established
+			if lo < 0 || hi < lo {
+				m.raiseRuntime("slice bounds out of range")
+			}
+			if m.branchVC(SLt(v.slen, BVC(64, uint64(int64(hi)))), "slice bounds") {
+				m.raiseRuntime("slice bounds out of range (symbolic length)")
+			}
+			if hi > v.len {
+				m.unsupported("slice bound %d beyond physical store of lazily sized slice", hi)
+			}
+			return &SliceV{arr: v.arr, off: v.off + lo, len: hi - lo, cap: hi - lo}
 		}
 		ln := m.sliceLen(v)
 		if in.High == nil {
@@ -667,9 +704,22 @@ func (m *Machine) indexAddr(fr *Frame, in *ssa.IndexAddr) Value {
 	idx := m.get(fr, in.Index).(*Term)
 	switch v := x.(type) {
 	case *SliceV:
+		if v.slen != nil && idx.IsConst() {
+			i := int(sextTo64(idx, in.Index.Type()).SVal())
+			if i < 0 || m.branchVC(SLe(v.slen, BVC(64, uint64(int64(i)))), "index out of range") {
+				m.raiseRuntime("index out of range (symbolic length)")
+			}
+			if i >= v.len {
+				m.unsupported("index %d beyond physical store of lazily sized slice", i)
+			}
+			return &Ptr{obj: v.arr, path: []int{v.off + i}}
+		}
 		n := m.sliceLen(v)
 		i := m.boundsCheck(idx, in.Index.Type(), n, "slice")
 		if i < 0 {
+			if isScalarType(in.Type().(*types.Pointer).Elem()) && n <= 512 && v.off == 0 && n == len(v.arr.val.(*ArrayV).E) {
+				return &Ptr{obj: v.arr, sym: sextTo64(idx, in.Index.Type())}
+			}
 			i = int(m.concretizeInt(sextTo64(idx, in.Index.Type()), "slice index", 64))
 		}
 		return &Ptr{obj: v.arr, path: []int{v.off + i}}
@@ -683,6 +733,9 @@ func (m *Machine) indexAddr(fr *Frame, in *ssa.IndexAddr) Value {
 		}
 		i := m.boundsCheck(idx, in.Index.Type(), len(arr.E), "array")
 		if i < 0 {
+			if isScalarType(in.Type().(*types.Pointer).Elem()) && len(arr.E) <= 512 {
+				return &Ptr{obj: v.obj, path: v.path, sym: sextTo64(idx, in.Index.Type())}
+			}
 			i = int(m.concretizeInt(sextTo64(idx, in.Index.Type()), "array index", 64))
 		}
 		return ptrField(v, i)
@@ -717,6 +770,11 @@ func (m *Machine) indexOp(fr *Frame, in *ssa.Index) Value {
 	return nil
 }
 
+func isScalarType(t types.Type) bool {
+	b, ok := t.Underlying().(*types.Basic)
+	return ok && b.Info()&(types.IsInteger|types.IsBoolean) != 0
+}
+
 // symSelect builds an ite chain over scalar elements, or concretizes.
 func (m *Machine) symSelect(e []Value, idx *Term) Value {
 	allTerm := true
@@ -725,7 +783,7 @@ func (m *Machine) symSelect(e []Value, idx *Term) Value {
 			allTerm = false
 		}
 	}
-	if allTerm && len(e) > 0 && len(e) <= 64 {
+	if allTerm && len(e) > 0 && len(e) <= 512 {
 		r := e[len(e)-1].(*Term)
 		for k := len(e) - 2; k >= 0; k-- {
 			r = Ite(Eq(idx, BVC(64, uint64(k))), e[k].(*Term), r)
